@@ -226,8 +226,8 @@ def kernel_footprint(prog, kern, data_param=None):
     loopvars = {lp.var: (lp.lo, lp.hi) for lp in k.loops}
     ysym = [a for a in Y.atoms() if isinstance(a, Sym)]
     xsym = [a for a in X.atoms() if isinstance(a, Sym)]
-    if len(ysym) != 1 or len(xsym) != 1 or Y != Rat.atom(ysym[0]) or X != Rat.atom(xsym[0]):
-        raise AnalysisIncomplete('%s: output index is not a pair of loop variables' % kern.qualname)
+    if len(ysym) != 1 or len(xsym) != 1 or not (Y - Rat.atom(ysym[0])).is_const() or not (X - Rat.atom(xsym[0])).is_const():
+        raise AnalysisIncomplete('%s: output index is not a pair of loop variables (plus constants)' % kern.qualname)
     data = data_param or kern.params[0]
     outer = {ysym[0].name, xsym[0].name}
     binders = {n: b for n, b in loopvars.items() if n not in outer}
